@@ -310,9 +310,7 @@ def md_carriable(wb) -> bool:
         if k == "sheet_names" or k.endswith("_header") or not isinstance(rows, list):
             continue
         for r in rows:
-            if not r:
-                return False
-            for v in r.values():
+            for v in r.values():       # (a blank row is a row of empty cells in Markdown)
                 if not isinstance(v, str) or "\n" in v or "\r" in v or "\\" in v or v != v.strip() or not v.strip():
                     return False
     return True
@@ -396,7 +394,7 @@ def _evaluate(case) -> Outcome:
     args = {k: v for k, v in form.get("args", {}).items() if k in ("form_name", "default_language")}
     var, done, smap, cmap = transform(wb, spec)
     use_xlsx = "sheet-case" in spec["kinds"]
-    use_md = not use_xlsx and "md-container" in spec["kinds"] and "blank-rows" not in spec["kinds"] and md_carriable(wb) and md_carriable(var)
+    use_md = not use_xlsx and "md-container" in spec["kinds"] and md_carriable(wb) and md_carriable(var)
     if use_md:
         done.add("md-container")
         s1, a = common.run_workbook(wb_to_md(wb), **args)
